@@ -17,3 +17,9 @@ package agd
 // Profiles are built by the profile database and replaced as a whole on
 // synchronisation; their settings objects are never reassigned.
 //@ immutable Profile.Ratelimiter, Profile.Access, Profile.ID
+
+// The request information is put into the context by the rate-limit
+// middleware before any later stage runs; the Must variant panics otherwise.
+//@ func MustRequestInfoFromContext
+//@   modifies nothing
+//@   ensures ri != nil
